@@ -199,6 +199,8 @@ namespace mfuse
     public:
         void clear();
         void resize(size_t count = 0);
+        /** Number of buckets. */
+        size_t allocated() const noexcept { return m_set.allocated(); }
 
         ValueT& operator[](const KeyT& index);
 
